@@ -5,7 +5,7 @@ COMMON_ASSUMPTIONS = [
     "bounded model checking: the verdict covers every value of every symbolic input within the stated bounds and nothing outside them; "
     "Kani unwinding assertions are enabled, so a too-small loop bound fails the run instead of truncating it",
     "stub: tracing macros are switched off (DefaultCallsite::interest -> never, __is_enabled -> false, Event::dispatch -> nop)",
-    "stub: rust_decimal arithmetic (+ - * / cmp checked_*) is replaced by an exact-rational model (numerator < 2^64, denominator < 2^32, "
+    "stub: rust_decimal arithmetic (+ - * / cmp checked_*) is replaced by an exact-rational model (|numerator| < 2^28, denominator < 2^16, "
     "leaving that range fails the run); the real library's 28-digit rounding is outside every claim",
     "stub: chrono::Utc::now returns a fixed instant (time_received is not the subject of any property)",
     "harness values are dropped with mem::forget (drop glue is not part of any claim)",
@@ -40,4 +40,125 @@ PROPS["C06"] = {
         "quick": {"filters": ["c06_q_", "c06_twin_"], "jobs": 8, "harness_timeout_s": 300, "total_timeout_s": 900},
         "thorough": {"filters": ["c06_"], "jobs": 8, "harness_timeout_s": 1800, "total_timeout_s": 3600},
     },
+}
+
+PROPS["C02"] = {
+    "hook": False,
+    "functions": [
+        "barter::engine::state::position::PositionManager::update_from_trade",
+        "barter::engine::state::position::Position::{update_from_trade, update_price_entry_average, update_pnl_realised, update_pnl_unrealised, from(&Trade)}",
+        "barter::engine::state::position::{calculate_price_entry_average, calculate_pnl_realised, calculate_pnl_unrealised, approximate_remaining_exit_fees}",
+        "barter::engine::state::position::PositionExited::from(Position)",
+    ],
+    "bounds": {
+        "quick": "one inductive step from an ARBITRARY open position (or none): quantities/prices in 1..3, fees 0..3, realised/unrealised PnL in -3..3 "
+                 "(2-bit integers), integer entry price; 10 cells = pre-side x fill-side x {reduce, exact close, flip}; instantiation "
+                 "Position<QuoteAsset, InstrumentIndex>; unwind 26",
+        "thorough": "the same cells with 3-bit integers (1..7) and a rational average entry price n/d, d <= 2",
+    },
+    "outside": ["28-digit rounding of rust_decimal (the property says 'up to decimal rounding'); magnitudes beyond the stated bit-widths",
+                "InstrumentState::update_from_trade wiring (covered under C15 / engine-level harnesses)"],
+    "assumptions": ["fill domain of the property: price > 0, quantity > 0, fee >= 0", "pre-state: quantity_abs_max >= quantity_abs >= 1, entry price > 0 (representation invariant of an open position)"],
+    "tiers": {
+        "quick": {"filters": ["c02_q_", "c02_twin_"], "jobs": 12, "harness_timeout_s": 600, "total_timeout_s": 1500},
+        "thorough": {"filters": ["c02_"], "jobs": 10, "harness_timeout_s": 3000, "total_timeout_s": 7000, "mem_gb": 10},
+    },
+}
+
+PROPS["C17"] = {
+    "hook": False,
+    "functions": [
+        "barter::statistic::summary::dataset::DataSetSummary::update",
+        "barter::statistic::algorithm::welford_online::{calculate_mean::<Decimal>, calculate_recurrence_relation_m, calculate_population_variance}",
+        "barter::statistic::summary::dataset::dispersion::{Dispersion::update, Range::update}",
+    ],
+    "bounds": {
+        "quick": "one inductive step from an ARBITRARY invariant-satisfying summary: n <= 3 previous values, each in [-3,3] (ghost sums S, Q consistent "
+                 "with that and n*Q >= S^2), next value in [-3,3]; plus a direct 3-value/two-orders harness from the empty summary; unwind 8",
+        "thorough": "quick + step with n <= 5 previous values in [-7,7]",
+    },
+    "outside": ["rounding-level effects (tiny negative variance from 28-digit rounding); the numeric value of sqrt (uninterpreted)"],
+    "assumptions": ["stub: Decimal::sqrt is an injective uninterpreted-style function (x -> x+1 on non-negative in-range values); the check asserts "
+                    "std_dev == sqrt(|variance|), i.e. that sqrt is applied to the right argument, not its numeric value",
+                    "pre-state invariant: count=n, sum=S, mean=S/n, M=Q-S^2/n, variance=M/n, low<=mean<=high, n*Q>=S^2"],
+    "tiers": {
+        "quick": {"filters": ["c17_q_", "c17_twin_"], "jobs": 4, "harness_timeout_s": 600, "total_timeout_s": 1500},
+        "thorough": {"filters": ["c17_"], "jobs": 4, "harness_timeout_s": 3000, "total_timeout_s": 7000},
+    },
+}
+
+PROPS["C18"] = {
+    "hook": False,
+    "functions": [
+        "barter::statistic::metric::drawdown::DrawdownGenerator::{init, update, generate}",
+        "barter::statistic::metric::drawdown::max::MaxDrawdownGenerator::{init, update, generate}",
+        "barter::statistic::metric::drawdown::mean::MeanDrawdownGenerator::{update, generate}",
+        "barter::statistic::algorithm::welford_online::calculate_mean::<Decimal> / ::<i64>",
+        "barter::statistic::metric::drawdown::Drawdown::duration",
+    ],
+    "bounds": {
+        "quick": "generator: one step from an ARBITRARY state (peak in 1..7, trough in -7..peak, three ordered timestamps < 8 s) with a point in -7..7; "
+                 "curve: 4 points (first 1..3, others -3..3) against an independent quadratic peak-to-trough decomposition; max: arbitrary current "
+                 "(or none) and next drawdown, depths n/d with n<8,d<=3; mean: count <= 4, depth sum n/d (n<16,d<=3), mean duration <= 8000 ms; unwind 8",
+        "thorough": "quick + generator step with 4-bit values + curve of 5 points with 3-bit values",
+    },
+    "outside": ["curves whose running maximum is not positive (the property's own precondition)",
+                "the feeding of the generators by TearSheetGenerator / TearSheetAssetGenerator (update_from_position is exercised under C16)"],
+    "assumptions": ["mean duration: the implementation's integer-millisecond truncating recurrence is asserted as such (plus: result lies between its operands)",
+                    "a drawdown's start is the FIRST time its running maximum was attained (equal later values do not move it)"],
+    "tiers": {
+        "quick": {"filters": ["c18_q_", "c18_twin_"], "jobs": 8, "harness_timeout_s": 600, "total_timeout_s": 1500},
+        "thorough": {"filters": ["c18_"], "jobs": 8, "harness_timeout_s": 3000, "total_timeout_s": 7000},
+    },
+}
+
+PROPS["C16"] = {
+    "hook": False,
+    "functions": [
+        "barter::statistic::summary::instrument::TearSheetGenerator::{update_from_position, generate::<TimeDelta>}",
+        "barter::statistic::summary::pnl::PnLReturns::update",
+        "barter::engine::state::position::calculate_pnl_return",
+        "barter::statistic::metric::win_rate::WinRate::calculate",
+        "barter::statistic::metric::profit_factor::ProfitFactor::calculate",
+        "barter::statistic::summary::dataset::DataSetSummary::update (count / sum)",
+    ],
+    "bounds": {
+        "quick": "(a) update: ARBITRARY invariant state with <= 2 wins and <= 2 losses, win/loss return sums n/d (n<4, d<=2), raw PnL -3..3; closed position "
+                 "with realised PnL -3..3, entry price 1..3, max quantity 1..3. (b) generate on an arbitrary invariant state of the same shape; interval "
+                 "TimeDelta::seconds(2), risk-free return 0; unwind 8",
+        "thorough": "quick + the same two harnesses with <= 4 wins/losses and 3-bit values",
+    },
+    "outside": ["Sharpe / Sortino / Calmar / rate-of-return values (sqrt and time scaling are stubbed; not part of the property)",
+                "TradingSummaryGenerator::{init, generate} per-instrument / per-asset maps (hash containers)",
+                "negative zero returns (rounding-level)"],
+    "assumptions": ["model: checked_mul/checked_div return None when an operand is outside the model range (Decimal::MAX markers of the ratio metrics)",
+                    "invariant J: pnl_raw = P, total.count = W+L, total.sum = SW+SL, losses.count = L, losses.sum = SL (SL < 0 when L > 0)"],
+    "tiers": {
+        "quick": {"filters": ["c16_q_", "c16_twin_"], "jobs": 4, "harness_timeout_s": 600, "total_timeout_s": 1500},
+        "thorough": {"filters": ["c16_"], "jobs": 6, "harness_timeout_s": 3000, "total_timeout_s": 7000},
+    },
+}
+
+
+# ---- MANIFEST texts -------------------------------------------------------------------------------------
+LEVEL = {
+ "C02": ("One inductive step of the real PositionManager::update_from_trade from an arbitrary open position (or none) with an arbitrary fill, "
+         "asserting side/size = sign/magnitude of the net quantity, closed-record iff the net quantity reaches or crosses zero, the exact "
+         "cash-flow identity of realised PnL (wealth function), fee additivity and fill-id recording. Induction covers fill sequences of any "
+         "length; the SAT verdict covers every value in the stated bit-widths, which sampled unit tests cannot.",
+         "Exact-rational Decimal model (rounding outside the claim); quantities bounded to 2 (quick) / 3 (thorough) bits."),
+ "C06": ("Bounded model checking of the real sequencer code: one step from an arbitrary sequencer state with full 64-bit symbolic update ids, "
+         "plus k-step (k=4) harnesses over arbitrary message sequences, for both the spot and the USD-futures rule sets. The solver verdict "
+         "covers every id value, which the quantifier over all delivery perturbations needs.",
+         "Outside: the +1 overflow at u64::MAX, the tokio stream combinator that terminates the connection, serde."),
+ "C16": ("Inductive invariant linking PnLReturns to ghost win/loss counts and sums through the real TearSheetGenerator::update_from_position, and the "
+         "real generate() on an arbitrary invariant-satisfying state asserted against win_rate = W/(W+L), profit_factor = |SW|/|SL| with the documented "
+         "None/MAX/MIN conventions and pnl = sum of realised PnL.",
+         "Ratio metrics (Sharpe/Sortino/Calmar) stubbed and unclaimed; TradingSummaryGenerator maps outside; exact-rational Decimal model."),
+ "C17": ("Inductive invariant (count, sum, mean, Welford M, variance, range) of the real DataSetSummary::update against ghost n, sum, sum of squares: "
+         "equality with the batch formulas after any sequence, order-independence, variance >= 0, mean within range; plus a direct three-value/two-order harness.",
+         "Exact-rational Decimal model; sqrt uninterpreted; values bounded to [-3,3] (quick) / [-7,7] (thorough)."),
+ "C18": ("One step of the real DrawdownGenerator from an arbitrary state, k-point curves (k=4/5) against an independent quadratic peak-to-trough decomposition, "
+         "and one step of the max / mean generators from arbitrary states.",
+         "Exact-rational Decimal model; positive running maxima (the property's precondition); integer-millisecond mean duration asserted as implemented."),
 }
